@@ -320,6 +320,34 @@ theorem ladder_agree (q : Req) (l : Lookups) (s : ServeFacts) (r : Rung)
           have hcut' : l.cut = false := by simpa [hcd'] using hnocut
           simp [msgLadder, hecs, hex', hcd', hcut', hden, hf]
 
+/-- **The gates in front of the ladders agree too.** Whatever the wire
+ladder serves, the decoded path serves from the same rung — in particular a
+question the decoded path drops (qtype / qclass outside the library's
+tables) or refuses with SERVFAIL (RD clear) is never answered from bytes, by
+any rung. -/
+theorem wire_serves_only_what_msg_serves (q : Req) (isRoot : Bool) (l : Lookups) (s : ServeFacts) (r : Rung)
+    (hcut : l.cutWire = l.cut)
+    (hfail : ∀ k, l.failureWire = some k → l.failure.isSome = true)
+    (hwit : l.witnessHolds = true → l.denial = false)
+    (h : (wireLadder q l s).out = .served r) :
+    msgServe q isRoot l = .rung r := by
+  have gateOut : ∀ (ok : Bool) (k : Step), (gate 0 ok k).out = .served r → ok = true ∧ k.out = .served r := by
+    intro ok k hk; cases ok <;> simp [gate, declineWith] at hk ⊢; exact hk
+  have hl := ladder_agree q l s r hcut hfail hwit h
+  unfold wireLadder at h
+  obtain ⟨h1, h⟩ := gateOut _ _ h
+  obtain ⟨h2, h⟩ := gateOut _ _ h
+  obtain ⟨h3, _⟩ := gateOut _ _ h
+  simp only [Bool.and_eq_true, Bool.not_eq_true'] at h1
+  simp [msgServe, h1.1, h2, h3, hl]
+
+-- non-vacuity: an unknown qtype below a live cut is declined by the wire ladder and dropped by the decoded path
+example :
+    let q : Req := { rd := true, hasECS := false, cd := false, typeKnown := false, classKnown := true }
+    let l : Lookups := { cut := true, cutWire := true }
+    (wireLadder q l ({} : ServeFacts)).out = Out.decline ∧ msgServe q false l = MsgOut.drop := by
+  decide
+
 /-- **Every decline happens before any byte is committed**, a served rung
 did write, and a limiter refusal writes nothing and spends nothing. -/
 theorem decline_before_commit (q : Req) (l : Lookups) (s : ServeFacts) :
@@ -674,6 +702,64 @@ theorem wire_reply_flags_eq_msg (stored stale : Nat) (rd cd noad : Bool) (hs : s
 -- non-vacuity: stored `qr rd ra ad`, CD request: AD must not reach the client on either path
 example : ednsWriteWireFlags true (wireHitFlags 0x81A0 true true) = 0x8190 ∧ msgHitFlags 0x81A0 true true true = 0x8190 := by
   decide
+
+/-- **The cache-contained alias chase is sound and equals the decoded
+chase.** Whenever the wire walk composes a reply from a cache `cache` at age
+`el`: it used at most 10 hops, every one of them cached, unexpired, NOERROR and
+free of authority / additional baggage, the last one carrying the terminal
+record (of a type the composer re-encodes); the composed body's AD bit is
+the conjunction of the hops' AD bits and off for a CD client, `WireInfo`
+says the same as the body (so the edns layer's AD discipline sees the truth),
+every hop's records carry that hop's own `floor(remaining)` — and AD and
+TTLs are exactly what the decoded chase answers over the same hops. -/
+theorem chase_sound_and_equal (cache : List Hop) (qtOK : Bool) (el : Nat) (cd : Bool) (r : ChaseReply)
+    (h : wireChase cache qtOK el cd = some r) :
+    ∃ ids : List Nat,
+      r.hops = ids.length ∧ 1 ≤ ids.length ∧ ids.length ≤ maxWireChaseHops ∧
+      (∀ id ∈ ids, UsableHop cache el id) ∧
+      (∃ last hop, ids.getLast? = some last ∧ cache[last]? = some hop ∧ hop.kind = .terminal ∧ qtOK = true) ∧
+      r.ad = ((ids.filterMap (cache[·]?)).all (·.ad) && !cd) ∧
+      r.infoAD = r.ad ∧
+      (r.ad, r.ttls) = msgChase cache el cd ids := by
+  unfold wireChase at h
+  cases hw : walkChase cache qtOK el (maxWireChaseHops + 1) 0 [] [] with
+  | none => simp [hw] at h
+  | some ids =>
+    simp only [hw, Option.map_some, Option.some.injEq] at h
+    obtain ⟨h1, h2, h3, h4⟩ := walkChase_spec cache qtOK el _ _ _ _ _ hw
+    have hbody : r.ad = ((ids.filterMap (cache[·]?)).all (·.ad) && !cd) := by
+      rw [← h]
+      simp only [composeChase]
+      cases hall : (ids.filterMap (cache[·]?)).all (·.ad)
+      · simp
+      · -- all hops authenticated: so is the alias whose header was copied
+        cases hseg : ids.filterMap (cache[·]?) with
+        | nil =>
+          exfalso
+          match ids, h2, h3, hseg with
+          | [], h2, _, _ => simp at h2
+          | id0 :: rest, _, h3, hseg =>
+            rcases h3 id0 (by simp) with hh | ⟨hop, hc, _, _⟩
+            · simp at hh
+            · simp [List.filterMap_cons, hc] at hseg
+        | cons s t =>
+          rw [hseg] at hall
+          simp only [List.all_cons, Bool.and_eq_true] at hall
+          cases cd <;> simp [hall.1]
+    refine ⟨ids, by rw [← h]; rfl, by simp at h2; omega, h1, ?_, h4, hbody, ?_, ?_⟩
+    · intro id hid
+      rcases h3 id hid with hh | hh
+      · simp at hh
+      · exact hh
+    · rw [hbody, ← h]
+      simp only [composeChase]
+      cases (ids.filterMap (cache[·]?)).all (·.ad) <;> cases cd <;> simp
+    · rw [hbody, ← h]
+      simp [msgChase, composeChase, foldl_and_eq_all]
+
+-- non-vacuity: a validated alias onto a re-admitted, unvalidated target — no AD on either path
+example : wireChase [{ kind := .cname, ad := true, ttl := 200, target := 1 }, { kind := .terminal, ad := false, ttl := 60, target := 0 }]
+    true 7500 false = some { hops := 2, ad := false, infoAD := false, ttls := [192, 52] } := by decide
 
 /-! ## 6. Facts regenerated from the tree (one-directional side conditions) -/
 
